@@ -1,6 +1,7 @@
 package main
 
 import (
+	"bufio"
 	"os"
 	"runtime"
 	"encoding/binary"
@@ -59,6 +60,29 @@ type seqRun struct {
 	inline   bool              // concurrent mode: run calls in the calling goroutine
 	curDesc  string
 	locks    bool              // sequential mode: print the lock trace of every operation
+	imgOut     func(string) // where disk images for the structure checker go (nil: none)
+	fsckEvery  int          // image after every N counted operations
+	fsckDue    bool
+	opCount    int
+	imgCount   int
+	movedDirs  []uint64     // directories moved to another parent by RENAME (known finding: stale "..")
+	recovered  bool         // this server was started on a crash image: half-freed objects may exist
+	crossRenames int        // successful renames between two different directories
+	lastStatus   nfstypes.Nfsstat3
+}
+
+// fsckPoint dumps the logical disk for the structure checker: background freeing finished,
+// everything flushed, no request in flight.
+func (s *seqRun) fsckPoint(label string) {
+	if s.imgOut == nil || s.dead {
+		return
+	}
+	s.fsckDue = false
+	s.waitIdle()
+	st := s.srv.VerifFsState()
+	st.Txn.Flush()
+	s.imgCount++
+	emitImage(st, fmt.Sprintf("%s #%d after %d operations", label, s.imgCount, s.opCount), !s.recovered, true, s.movedDirs, s.imgOut)
 }
 
 func (s *seqRun) emitf(format string, a ...interface{}) {
@@ -103,6 +127,9 @@ func (s *seqRun) close() {
 func (s *seqRun) guarded(desc string, f func()) bool {
 	if s.dead {
 		return false
+	}
+	if s.fsckDue && !s.inline {
+		s.fsckPoint("periodic")
 	}
 	if s.inline {
 		s.curDesc = desc
@@ -195,6 +222,14 @@ func (s *seqRun) count(op string, st nfstypes.Nfsstat3) {
 		cls = "notsupp"
 	}
 	s.hist[op+":"+cls]++
+	s.lastStatus = st
+	if st == nfstypes.NFS3ERR_NOSPC {
+		s.hist[op+":nospc"]++
+	}
+	s.opCount++
+	if s.fsckEvery > 0 && s.opCount%s.fsckEvery == 0 {
+		s.fsckDue = true
+	}
 	if st == nfstypes.NFS3_OK {
 		for _, h := range s.cur {
 			if s.deadH[hx(h)] {
@@ -520,6 +555,21 @@ func (s *seqRun) opRename(ffh []byte, fname string, tfh []byte, tname string) {
 	s.cur = [][]byte{ffh, tfh}
 	desc := fmt.Sprintf("rename %s %s %s %s", hx(ffh), hx([]byte(fname)), hx(tfh), hx([]byte(tname)))
 	var st nfstypes.Nfsstat3
+	// a directory moved to another parent keeps its old ".." (known finding): remembered for the structure checker
+	movedCand := false
+	if fd, ok := s.dirs[hx(ffh)]; ok && hx(ffh) != hx(tfh) {
+		if ch, ok := fd.names[fname]; ok {
+			if o, ok := s.objs[hx(ch)]; ok && o.kind == 2 {
+				s.movedDirs = append(s.movedDirs, inumOf(ch))
+				movedCand = true
+			}
+		}
+	}
+	defer func() {
+		if movedCand && st != nfstypes.NFS3_OK {
+			s.movedDirs = s.movedDirs[:len(s.movedDirs)-1]
+		}
+	}()
 	// was it a no-op rename (same object)? then no slot is used
 	if !s.guarded(desc, func() {
 		st = s.srv.NFSPROC3_RENAME(nfstypes.RENAME3args{
@@ -529,6 +579,9 @@ func (s *seqRun) opRename(ffh []byte, fname string, tfh []byte, tname string) {
 		return
 	}
 	s.count("rename", st)
+	if st == nfstypes.NFS3_OK && hx(ffh) != hx(tfh) {
+		s.crossRenames++
+	}
 	if st == nfstypes.NFS3_OK {
 		slot := s.findSlot(tfh, tname)
 		if s.dead {
@@ -1072,7 +1125,19 @@ func cmdSeq(fs *flag.FlagSet, args []string) {
 	c10 := fs.Int("c10", 0, "every N operations: coherence of caches/allocators with the disk, restart and recovery comparison")
 	limits := fs.Bool("limits", true, "probe the announced limits")
 	locks := fs.Bool("locks", false, "print the lock/commit event trace of every operation")
+	fsckN := fs.Int("fsck", 0, "every N operations (and at the end of every scenario/sequence): dump the logical disk for the structure checker")
+	imgPath := fs.String("imgout", "", "file the disk images go to")
 	fs.Parse(args)
+	var imgOut func(string)
+	if *imgPath != "" {
+		f, err := os.Create(*imgPath)
+		if err != nil {
+			die("imgout: %v", err)
+		}
+		w := bufio.NewWriterSize(f, 1<<20)
+		defer func() { w.Flush(); f.Close() }()
+		imgOut = func(l string) { w.WriteString(l); w.WriteByte('\n') }
+	}
 	root := NewRng(*seed)
 	if *locks {
 		fstxn.VerifObserver = seqObserver
@@ -1090,8 +1155,10 @@ func cmdSeq(fs *flag.FlagSet, args []string) {
 			emit("# scenario %s", sc.name)
 			s.c09 = *c09
 			s.locks = *locks
+			s.imgOut, s.fsckEvery = imgOut, *fsckN
 			takeSeqEvents()
 			sc.run(s)
+			s.fsckPoint("scenario " + sc.name)
 			s.scanAll()
 			if *c10 > 0 {
 				s.restartCompare()
@@ -1106,6 +1173,7 @@ func cmdSeq(fs *flag.FlagSet, args []string) {
 		emit("# sequence %d unstable=%v", i, unstable)
 		s.c09 = *c09
 		s.locks = *locks
+		s.imgOut, s.fsckEvery = imgOut, *fsckN
 		takeSeqEvents()
 		for j := 0; j < *nops && !s.dead; j++ {
 			s.randomOp(*big)
@@ -1113,6 +1181,7 @@ func cmdSeq(fs *flag.FlagSet, args []string) {
 				s.restartCompare()
 			}
 		}
+		s.fsckPoint(fmt.Sprintf("sequence %d end", i))
 		s.scanAll()
 		if *c10 > 0 {
 			s.restartCompare()
